@@ -170,7 +170,14 @@ Outcome runIsolated(const Plan& plan, int timeoutSec)
     else if (WIFEXITED(status) && WEXITSTATUS(status) == 78)
         rule = "crash.exception";
     else if (err.find("Sanitizer") != std::string::npos || err.find("runtime error:") != std::string::npos)
-        rule = "crash.sanitizer/" + classifySanitizer(err);
+    {
+        const std::string c = classifySanitizer(err);
+        // a report without any library frame on its stack is a bug of the simulator, not of the code under test
+        if (c.size() >= 2 && c.substr(c.size() - 2) == "@?" && err.find("/verif/sim/") != std::string::npos)
+            rule = "harness.crash/" + c;
+        else
+            rule = "crash.sanitizer/" + c;
+    }
     else if (WIFSIGNALED(status))
         rule = "crash.signal/" + std::to_string(WTERMSIG(status));
     else
